@@ -30,6 +30,7 @@ type BaseOutSession struct {
 
 	sdpCtx sdp.LogicContext
 
+	connMu           sync.Mutex // 保护下面四个连接对象
 	audioRtpConn     *nazanet.UdpConnection
 	videoRtpConn     *nazanet.UdpConnection
 	audioRtcpConn    *nazanet.UdpConnection
@@ -70,6 +71,8 @@ func (session *BaseOutSession) InitWithSdp(sdpCtx sdp.LogicContext) {
 }
 
 func (session *BaseOutSession) SetupWithConn(uri string, rtpConn, rtcpConn *nazanet.UdpConnection) error {
+	// 注意，setup信令的处理协程和上层主动关闭（比如kick session）的协程是并行的，这几个连接对象需要加锁保护
+	session.connMu.Lock()
 	if session.sdpCtx.IsAudioUri(uri) {
 		session.audioRtpConn = rtpConn
 		session.audioRtcpConn = rtcpConn
@@ -77,8 +80,10 @@ func (session *BaseOutSession) SetupWithConn(uri string, rtpConn, rtcpConn *naza
 		session.videoRtpConn = rtpConn
 		session.videoRtcpConn = rtcpConn
 	} else {
+		session.connMu.Unlock()
 		return nazaerrors.Wrap(base.ErrRtsp)
 	}
+	session.connMu.Unlock()
 
 	go rtpConn.RunLoop(session.onReadRtpPacket)
 	go rtcpConn.RunLoop(session.onReadRtcpPacket)
@@ -218,6 +223,7 @@ func (session *BaseOutSession) dispose(err error) error {
 	session.disposeOnce.Do(func() {
 		Log.Infof("[%s] lifecycle dispose rtsp BaseOutSession. session=%p", session.UniqueKey(), session)
 		var e1, e2, e3, e4 error
+		session.connMu.Lock()
 		if session.audioRtpConn != nil {
 			e1 = session.audioRtpConn.Dispose()
 		}
@@ -230,6 +236,7 @@ func (session *BaseOutSession) dispose(err error) error {
 		if session.videoRtcpConn != nil {
 			e4 = session.videoRtcpConn.Dispose()
 		}
+		session.connMu.Unlock()
 
 		session.waitChan <- nil
 
